@@ -542,3 +542,264 @@ Example help_same_page_refuted_help_command :
     sm_action (run_summary false a [SERVER; T_h]) = AHelpCmd [SERVER; RUN]
   | Err _ => False end.
 Proof. vm_compute. repeat split; reflexivity. Qed.
+
+(* ================= width, through the PLAIN and the ANSI formatter ================= *)
+(* page_fits_null / page_renders_null / *_help_renders_and_fits above are for the identity formatter.  Here the real ones.
+   Proofs/MarkupShrinkLemmas.v: an undecorated colorize (the plain formatter; remove_format of any formatter) only DELETES
+   characters - recognised tags, the backslash of a backslash-lessthan pair - and never a line break.
+   Proofs/HelpPlainLemmas.v: on the line of a label it deletes at least the markup the alignment allowed for. *)
+From Clikit Require Import Proofs.MarkupLemmas Proofs.MarkupShrinkLemmas Proofs.HelpPlainLemmas Proofs.HelpCleanLemmas.
+
+(* deletes m out: out is m with characters other than the line break deleted (Inductive: keep a character, or drop one
+   that is not NL).  For EVERY style table, stack and message: *)
+Theorem colorize_only_deletes : forall sty sk m sk' out, colorize sty false sk m = Ok (sk', out) -> deletes m out.
+Proof. exact colorize_deletes. Qed.
+Print Assumptions colorize_only_deletes.
+(* hence as many lines, each at most as long as the line of the message *)
+Theorem deletes_shrinks_lines : forall x y, deletes x y ->
+  Forall2 (fun a b : str => length a <= length b) (split_on NL y) (split_on NL x).
+Proof. exact deletes_lines. Qed.
+Print Assumptions deletes_shrinks_lines.
+Theorem colorize_shrinks_lines : forall sty sk m sk' out, colorize sty false sk m = Ok (sk', out) ->
+  length (split_on NL out) = length (split_on NL m)
+  /\ Forall2 (fun a b : str => length a <= length b) (split_on NL out) (split_on NL m).
+Proof. exact colorize_lines_shrink. Qed.
+Print Assumptions colorize_shrinks_lines.
+(* the same for remove_format of ANY formatter (plain, ANSI, null) and format of the plain one *)
+Theorem remove_format_shrinks_lines : forall f m f' out, remove_format f m = Ok (f', out) ->
+  deletes m out /\ length (split_on NL out) = length (split_on NL m)
+  /\ Forall2 (fun a b : str => length a <= length b) (split_on NL out) (split_on NL m).
+Proof. intros f m f' out H. split; [eapply remove_format_deletes, H|eapply remove_format_lines_shrink, H]. Qed.
+Print Assumptions remove_format_shrinks_lines.
+Theorem format_plain_shrinks_lines : forall f m style f' out, f_kind f = FPlain -> format f m style = Ok (f', out) ->
+  deletes m out /\ length (split_on NL out) = length (split_on NL m)
+  /\ Forall2 (fun a b : str => length a <= length b) (split_on NL out) (split_on NL m).
+Proof. intros f m style f' out Hk H. split; [eapply format_plain_deletes; eassumption|eapply format_plain_lines_shrink; eassumption]. Qed.
+Print Assumptions format_plain_shrinks_lines.
+(* a message that does not end with a backslash is rendered line by line (plain_of sty false: the rendering of one line) *)
+Theorem colorize_acts_line_by_line : forall sty sk m sk' out, colorize sty false sk m = Ok (sk', out) -> ends_with_bsl m = false ->
+  split_on 10%N out = map (plain_of sty false) (split_on 10%N m).
+Proof. exact colorize_line_by_line. Qed.
+Print Assumptions colorize_acts_line_by_line.
+
+(* page_fits_null for the plain formatter: for EVERY layout with one-line labels, every style table and every state of the
+   style stack, whenever the page renders no line is wider than W - 1 ... *)
+Theorem page_fits_plain : forall W f l s, f_kind f = FPlain -> (1 <= W)%Z -> one_line_labels l ->
+  render_page W f l = Ok s -> Forall (fun ln => (zlen ln <= W - 1)%Z) (split_on 10%N s).
+Proof. exact page_fits_plain_lemma. Qed.
+Print Assumptions page_fits_plain.
+(* ... and it renders or fails with ValueError (markup the formatter refuses in a configured text; no room to wrap) *)
+Theorem page_plain_fits_or_value_error : forall W f l, f_kind f = FPlain -> (1 <= W)%Z -> one_line_labels l ->
+  match render_page W f l with
+  | Ok s => Forall (fun ln => (zlen ln <= W - 1)%Z) (split_on 10%N s)
+  | Err k => k = ValueError
+  end.
+Proof. exact page_plain_fits_or_value_error_lemma. Qed.
+Print Assumptions page_plain_fits_or_value_error.
+(* the help pages of EVERY configuration whose names hold no newline: IF the plain rendering succeeds THEN it fits *)
+Theorem command_help_fits_plain : forall W f sty app_name ch aliases help subs s,
+  f_kind f = FPlain -> (1 <= W)%Z ->
+  (match app_name with Some n => no_nl n | None => True end) -> Forall no_nl (chain_names ch) ->
+  Forall arg_one_line (chain_args ch) -> Forall opt_one_line (own_opts ch) -> Forall opt_one_line (base_opts ch) ->
+  Forall sub_one_line subs ->
+  render_page W f (command_page sty app_name ch aliases help subs) = Ok s ->
+  Forall (fun ln => (zlen ln <= W - 1)%Z) (split_on 10%N s).
+Proof. exact command_help_fits_plain_lemma. Qed.
+Print Assumptions command_help_fits_plain.
+Theorem application_help_fits_plain : forall W f sty app_name display version gopts cmds help s,
+  f_kind f = FPlain -> (1 <= W)%Z ->
+  (match app_name with Some n => no_nl n | None => True end) -> Forall opt_one_line gopts ->
+  Forall (fun c => no_nl (ac_name c)) cmds ->
+  render_page W f (application_page sty app_name display version gopts cmds help) = Ok s ->
+  Forall (fun ln => (zlen ln <= W - 1)%Z) (split_on 10%N s).
+Proof. exact application_help_fits_plain_lemma. Qed.
+Print Assumptions application_help_fits_plain.
+
+(* The ANSI formatter, the VISIBLE text (strip_sgr: SGR sequences removed).
+   For EVERY style table, stack and ESC-free message the decorated colorize succeeds exactly when the undecorated one does, with
+   the same stack, and its visible text v is obtained from the undecorated output BEFORE unescape (wout_of) by deleting characters
+   other than the line break: all the SGR sequences can do is keep a backslash apart from its "<". *)
+Theorem colorize_ansi_visible : forall sty sk m sk' o1, no_esc m -> colorize sty true sk m = Ok (sk', o1) ->
+  colorize sty false sk m = Ok (sk', plain_of sty (ends_with_bsl m) m)
+  /\ exists v, strips o1 v /\ deletes (wout_of sty (ends_with_bsl m) m) v.
+Proof. exact colorize_visible. Qed.
+Print Assumptions colorize_ansi_visible.
+(* Hence page_fits_null for the ANSI formatter, for layouts without ESC whose LABELS hold no backslash (clean_layout; the
+   texts may hold backslashes: json.dumps of a string default, the escaped placeholder of an argument named like a style):
+   whenever the page renders, the visible text of every line is at most W - 1 long.  The condition on the labels is needed:
+   page_fits_ansi_refuted below. *)
+Theorem page_fits_ansi_visible : forall W f l s, is_ansi f -> (1 <= W)%Z -> one_line_labels l -> clean_layout l ->
+  render_page W f l = Ok s -> Forall (fun ln => (zlen (strip_sgr ln) <= W - 1)%Z) (split_on 10%N s).
+Proof. exact page_fits_ansi_clean_lemma. Qed.
+Print Assumptions page_fits_ansi_visible.
+(* For layouts without ESC and without ANY backslash (good_layout; the hypothesis of MarkupLemmas.colorize_lockstep) the page
+   with the SGR sequences removed IS the page of the plain formatter with the same style table and stack (as_plain). *)
+Theorem ansi_page_visible : forall W f l s, is_ansi f -> good_layout l -> render_page W f l = Ok s ->
+  render_page W (as_plain f) l = Ok (strip_sgr s).
+Proof. exact ansi_page_visible_lemma. Qed.
+Print Assumptions ansi_page_visible.
+(* the help pages: IF the ANSI rendering succeeds THEN the visible text fits - clean_layout is asked of the page *)
+Theorem command_help_fits_ansi_visible : forall W f sty app_name ch aliases help subs s,
+  is_ansi f -> (1 <= W)%Z ->
+  (match app_name with Some n => no_nl n | None => True end) -> Forall no_nl (chain_names ch) ->
+  Forall arg_one_line (chain_args ch) -> Forall opt_one_line (own_opts ch) -> Forall opt_one_line (base_opts ch) ->
+  Forall sub_one_line subs ->
+  clean_layout (command_page sty app_name ch aliases help subs) ->
+  render_page W f (command_page sty app_name ch aliases help subs) = Ok s ->
+  Forall (fun ln => (zlen (strip_sgr ln) <= W - 1)%Z) (split_on 10%N s).
+Proof.
+  intros W f sty app_name ch aliases help subs s Hk HW H1 H2 H3 H4 H5 H6 Hg Hs.
+  eapply page_fits_ansi_clean_lemma; [exact Hk|exact HW|apply command_page_one_line; eassumption|exact Hg|exact Hs].
+Qed.
+Print Assumptions command_help_fits_ansi_visible.
+Theorem application_help_fits_ansi_visible : forall W f sty app_name display version gopts cmds help s,
+  is_ansi f -> (1 <= W)%Z ->
+  (match app_name with Some n => no_nl n | None => True end) -> Forall opt_one_line gopts ->
+  Forall (fun c => no_nl (ac_name c)) cmds ->
+  clean_layout (application_page sty app_name display version gopts cmds help) ->
+  render_page W f (application_page sty app_name display version gopts cmds help) = Ok s ->
+  Forall (fun ln => (zlen (strip_sgr ln) <= W - 1)%Z) (split_on 10%N s).
+Proof.
+  intros W f sty app_name display version gopts cmds help s Hk HW H1 H2 H3 Hg Hs.
+  eapply page_fits_ansi_clean_lemma; [exact Hk|exact HW|apply application_page_one_line; eassumption|exact Hg|exact Hs].
+Qed.
+Print Assumptions application_help_fits_ansi_visible.
+(* clean_layout from the configuration (Proofs/HelpCleanLemmas.v): names (application, commands, sub-commands, options,
+   arguments: what the labels are made of) without ESC and backslash; descriptions, value names, aliases, help texts and
+   the defaults as json.dumps writes them without ESC - json.dumps writes no ESC (it escapes control characters); a float
+   default is carried as its text. *)
+Theorem command_page_is_clean : forall sty app_name ch aliases help subs,
+  (match app_name with Some n => Forall good n | None => True end) -> Forall (Forall good) (chain_names ch) ->
+  Forall arg_clean (chain_args ch) -> Forall opt_clean (own_opts ch) -> Forall opt_clean (base_opts ch) ->
+  Forall sub_clean subs -> Forall no_esc aliases -> no_esc (odesc help) ->
+  clean_layout (command_page sty app_name ch aliases help subs).
+Proof. exact command_page_clean. Qed.
+Print Assumptions command_page_is_clean.
+Theorem application_page_is_clean : forall sty app_name display version gopts cmds help,
+  (match app_name with Some n => Forall good n | None => True end) ->
+  no_esc (odesc display) -> no_esc (odesc version) -> Forall opt_clean gopts ->
+  Forall (fun c => Forall good (ac_name c) /\ no_esc (ac_desc c)) cmds -> no_esc (odesc help) ->
+  clean_layout (application_page sty app_name display version gopts cmds help).
+Proof. exact application_page_clean. Qed.
+Print Assumptions application_page_is_clean.
+Theorem json_writes_no_esc : forall v, pyval_clean v -> no_esc (json v).
+Proof. exact json_no_esc. Qed.
+Print Assumptions json_writes_no_esc.
+Theorem strip_sgr_line_by_line : forall s, split_on 10%N (strip_sgr s) = map strip_sgr (split_on 10%N s).
+Proof. exact strip_sgr_lines. Qed.
+Print Assumptions strip_sgr_line_by_line.
+
+(* ---- examples ---- *)
+Definition cs_of (t : str) (fg : option str) (bold underlined : bool) : cstyle :=
+  {| c_tag := Some t; c_fg := fg; c_bg := None; c_bold := bold; c_italic := false; c_dark := false; c_underlined := underlined;
+     c_blinking := false; c_inverse := false; c_hidden := false |}.
+Definition ex_set : list cstyle :=     (* b: bold; c1: cyan; u: underlined *)
+  [cs_of [98]%N None true false; cs_of [99;49]%N (Some [99;121;97;110]%N) false false; cs_of [117]%N None false true].
+Definition ex_plainf : formatter := match new_formatter FPlain ex_set with Ok f => f | Err _ => ex_null end.
+Definition ex_ansif : formatter := match new_formatter (FAnsi true) ex_set with Ok f => f | Err _ => ex_null end.
+Definition DESC_FORCE_T : str := ([70;111;114;99;101;32;116;104;101;32;60;105;110;102;111;62;111;112;101;114;97;116;105;111;110;60;47;105;110;102;111;62;32;101;118;101;110;32;119;104;101;110;32;116;104;101;32;60;98;62;116;97;114;103;101;116;60;47;98;62;32;101;120;105;115;116;115;32;97;108;114;101;97;100;121]%N). (* Force the <info>operation</info> even when the <b>target</b> exists already *)
+Definition DESC_FILE_T : str := ([84;104;101;32;60;105;110;102;111;62;102;105;108;101;60;47;105;110;102;111;62;32;116;111;32;114;101;97;100;44;32;100;101;115;99;114;105;98;101;100;32;97;116;32;60;98;62;115;111;109;101;32;108;101;110;103;116;104;60;47;98;62;32;115;111;32;116;104;97;116;32;116;104;101;32;116;101;120;116;32;104;97;115;32;116;111;32;98;101;32;119;114;97;112;112;101;100]%N). (* The <info>file</info> to read, described at <b>some length</b> so that the text has to be wrapped *)
+Definition DESC_SUB_T : str := ([68;111;101;115;32;60;98;62;115;111;109;101;116;104;105;110;103;60;47;98;62;32;117;115;101;102;117;108]%N). (* Does <b>something</b> useful *)
+Definition ex_force_t : hopt :=
+  {| h_o := {| o_long := FORCE; o_short := Some ([102]%N); o_flags := 5; o_default := VNone |};
+     h_odesc := Some DESC_FORCE_T; h_vname := ([46;46;46]%N) |}.
+Definition ex_file_t : harg := {| h_a := {| a_name := FILE; a_flags := 1; a_default := VNone |}; h_adesc := Some DESC_FILE_T |}.
+Definition ex_sub_t (name : str) : sub :=
+  {| sb_name := name; sb_default := false; sb_anonymous := false; sb_enabled := true; sb_hidden := false;
+     sb_desc := Some DESC_SUB_T; sb_help := None; sb_opts := [ex_level]; sb_args := [ex_file_t] |}.
+Definition ex_chain_t : list level :=
+  [{| lv_name := None; lv_opts := [ex_level]; lv_args := [] |}; {| lv_name := Some SERVER; lv_opts := [ex_force_t]; lv_args := [ex_file_t] |}].
+(* a command page with tagged descriptions *)
+Definition ex_tpage : layout :=
+  command_page (f_styles ex_plainf) (Some APP) ex_chain_t [SRV] (Some DESC_FILE_T) [ex_sub_t RUN; ex_sub_t ADD].
+
+(* At 30 columns the plain formatter renders the page, every line within 29 and one of them 29 long; the text as it is
+   (the identity formatter) cannot be laid out below 44 columns. *)
+Example ex_plain_renders :
+  match render_page 30 ex_plainf ex_tpage with
+  | Ok s => forallb (fun l => Nat.leb (length l) 29) (split_on 10%N s) && existsb (fun l => Nat.eqb (length l) 29) (split_on 10%N s)
+  | Err _ => false end = true
+  /\ render_page 30 ex_null ex_tpage = Err ValueError /\ needed_width ex_tpage = 44%Z.
+Proof. vm_compute. repeat split; reflexivity. Qed.
+(* the option --force at 30 columns: its label is 21 characters long, 12 of them visible; the text handed to the formatter
+   (label column 18) has a first line of 38 characters - NOT within 29 - and lines of 28 and 29 that hold tags; what the
+   formatter writes is within 29 on every line *)
+Example ex_plain_raw_too_wide :
+  match align ex_plainf ex_tpage 0 with
+  | Ok a =>
+    match remove_format (fst a) (elem_label (render_option ex_force_t)) with
+    | Ok x =>
+      match elem_raw 30 (snd a) 2 (zlen (snd x)) (render_option ex_force_t) with
+      | Ok raw =>
+        match emit (fst x) raw with
+        | Ok y => zlen (elem_label (render_option ex_force_t)) = 21%Z /\ zlen (snd x) = 12%Z
+                  /\ map (@length N) (split_on 10%N raw) = [38; 29; 28; 27; 29; 24; 24; 25; 0]
+                  /\ map (@length N) (split_on 10%N (snd y)) = [29; 29; 21; 27; 26; 20; 24; 25; 0]
+        | Err _ => False end
+      | Err _ => False end
+    | Err _ => False end
+  | Err _ => False end.
+Proof. vm_compute. repeat split; reflexivity. Qed.
+(* the hypotheses of command_help_fits_plain are met by this page *)
+Example ex_plain_fits_applied : forall W s, (1 <= W)%Z -> render_page W ex_plainf ex_tpage = Ok s ->
+  Forall (fun ln => (zlen ln <= W - 1)%Z) (split_on 10%N s).
+Proof.
+  intros W s HW H. apply (command_help_fits_plain W ex_plainf (f_styles ex_plainf) (Some APP) ex_chain_t [SRV] (Some DESC_FILE_T) [ex_sub_t RUN; ex_sub_t ADD] s);
+    [reflexivity|exact HW|..|exact H]; cbn; repeat constructor; try nl_char.
+Qed.
+(* the ANSI formatter on the same page: no ESC and no backslash in it; the visible text is the plain page *)
+Example ex_ansi_good : good_layout ex_tpage.
+Proof. apply good_layoutb_ok. vm_compute. reflexivity. Qed.
+Example ex_ansi_renders :
+  match render_page 30 ex_ansif ex_tpage, render_page 30 ex_plainf ex_tpage with
+  | Ok sa, Ok sp => str_eqb (strip_sgr sa) sp && Nat.ltb (length sp) (length sa)
+                    && forallb (fun l => Nat.leb (length (strip_sgr l)) 29) (split_on 10%N sa)
+  | _, _ => false end = true.
+Proof. vm_compute. reflexivity. Qed.
+Example ex_ansi_fits_applied : forall W s, (1 <= W)%Z -> render_page W ex_ansif ex_tpage = Ok s ->
+  Forall (fun ln => (zlen (strip_sgr ln) <= W - 1)%Z) (split_on 10%N s).
+Proof.
+  intros W s HW H. apply (page_fits_ansi_visible W ex_ansif ex_tpage s); [exact I|exact HW| |exact (good_clean _ ex_ansi_good)|exact H].
+  apply command_page_one_line; cbn; repeat constructor; try nl_char.
+Qed.
+
+(* backslashes in the TEXTS are covered: an argument named like a style (info: the synopsis holds the escaped placeholder
+   \<info>) and a string default with a quote in it (json.dumps writes a backslash before the quote); no backslash in a label *)
+Definition INFO : str := [105;110;102;111]%N.   (* info *)
+Definition ex_quote : hopt :=
+  {| h_o := {| o_long := LEVEL; o_short := Some ([108]%N); o_flags := 8 + 512; o_default := VStr [97;34;98]%N |};
+     h_odesc := Some DESC_FORCE_T; h_vname := INFO |}.
+Definition ex_info_arg : harg := {| h_a := {| a_name := INFO; a_flags := 1; a_default := VNone |}; h_adesc := Some DESC_FILE_T |}.
+Definition ex_bpage : layout :=
+  command_page (f_styles ex_ansif) (Some APP) [{| lv_name := Some SERVER; lv_opts := [ex_quote]; lv_args := [ex_info_arg] |}] [] None [].
+Example ex_ansi_backslash_texts :
+  clean_layoutb ex_bpage = true /\ good_layoutb ex_bpage = false /\
+  elem_text (snd (nth 1 ex_bpage (0%nat, EEmpty))) = [91;45;108;160;92;60;105;110;102;111;62;93;32;92;60;105;110;102;111;62]%N (* [-l \<info>] \<info> *) /\
+  match render_page 30 ex_ansif ex_bpage with
+  | Ok s => forallb (fun l => Nat.leb (length (strip_sgr l)) 29) (split_on 10%N s) && existsb (N.eqb 92) (strip_sgr s)
+  | Err _ => false end = true.
+Proof. vm_compute. repeat split; reflexivity. Qed.
+Example ex_ansi_clean_applied : forall W s, (1 <= W)%Z -> render_page W ex_ansif ex_bpage = Ok s ->
+  Forall (fun ln => (zlen (strip_sgr ln) <= W - 1)%Z) (split_on 10%N s).
+Proof.
+  intros W s HW H. apply (page_fits_ansi_visible W ex_ansif ex_bpage s); [exact I|exact HW| | |exact H].
+  - apply command_page_one_line; cbn; repeat constructor; try nl_char.
+  - apply command_page_is_clean; cbn; repeat constructor; try discriminate; try (apply json_writes_no_esc; exact I).
+Qed.
+
+(* REFUTED without the hypothesis on the labels: the visible text of an ANSI line can be W long.  The label
+   <b>x\<c1>y  measured on its own (remove_format, as LabelAlignment does) is  x<c1>y : the tag <b> and the backslash
+   are deleted, <c1> is escaped.  Written through the ANSI formatter, the text before the escaped tag and the tag are
+   wrapped in the SGR sequences of the open style <b> one by one, the backslash is no longer followed by "<", and
+   str.replace leaves it: 14 visible characters on a 14-column terminal (the plain formatter: 13).  Observed alike on the
+   Python code (BlockLayout + LabeledParagraph on an AnsiFormatter, width 14: the first line is
+   ESC[1m x\ ESC[0m ESC[1m <c1> ESC[0m ESC[1m y abcdef). *)
+Definition ex_bsl_layout : layout :=
+  [(0, ELab [60;98;62;120;92;60;99;49;62;121]%N (* <b>x\<c1>y *) [97;98;99;100;101;102;32;103;104;105]%N (* abcdef ghi *) 1 true)].
+Example page_fits_ansi_refuted :
+  one_line_labels ex_bsl_layout /\ clean_layoutb ex_bsl_layout = false /\
+  match render_page 14 ex_ansif ex_bsl_layout, render_page 14 ex_plainf ex_bsl_layout with
+  | Ok sa, Ok sp => map (fun l => length (strip_sgr l)) (split_on 10%N sa) = [14; 10; 0]
+                    /\ map (@length N) (split_on 10%N sp) = [13; 10; 0]
+  | _, _ => False end.
+Proof. split; [repeat constructor; nl_char|]. vm_compute. repeat split; reflexivity. Qed.
